@@ -80,8 +80,17 @@ impl Gen<'_> {
             let mut steps = if single {
                 vec![self.step(depth + 1, true)]
             } else {
-                let n = 2 + self.rng.below(3);
-                (0..n).map(|_| self.step(depth + 1, true)).collect()
+                // (now and then a pipeline of a single, directional step: "< addone")
+                let n = if self.rng.chance(0.15) { 1 } else { 2 + self.rng.below(3) };
+                let mut v: Vec<Step> = (0..n).map(|_| self.step(depth + 1, true)).collect();
+                if n == 1 && !v[0].omit_fwd && !v[0].omit_inv {
+                    if self.rng.chance(0.5) {
+                        v[0].omit_fwd = true;
+                    } else {
+                        v[0].omit_inv = true;
+                    }
+                }
+                v
             };
             let name = format!("t:m{}", self.counter);
             // a macro with arguments: one step of the body takes its values from the invocation
@@ -187,7 +196,14 @@ pub fn render_step(s: &Step, rng: &mut Rng, sugar: bool) -> (Option<char>, Strin
 pub fn render_pipeline(steps: &[Step], rng: &mut Rng) -> String {
     let mut out = String::new();
     for (i, s) in steps.iter().enumerate() {
-        let (sep, text) = render_step(s, rng, true);
+        let (mut sep, mut text) = render_step(s, rng, true);
+        // a pipeline of one directional step is written with the sugar ("< addone"): padded
+        // with "| noop" it would be a pipeline of two steps
+        let mut tries = 0;
+        while steps.len() == 1 && sep.is_none() && (s.omit_fwd || s.omit_inv) && tries < 40 {
+            (sep, text) = render_step(s, rng, true);
+            tries += 1;
+        }
         match sep {
             Some(c) => {
                 out.push(' ');
